@@ -43,6 +43,8 @@ pub struct VM {
     pub(crate) repl_known_globals: HashSet<String>,
     pub(crate) repl_known_native_globals: HashSet<String>,
     pub(crate) repl_symbol_origins: HashMap<String, String>,
+    // what the driver keeps for the whole REPL session (the module loader's memo); opaque here
+    pub(crate) repl_session: Option<Box<dyn std::any::Any>>,
 }
 
 // MIC entry for CallGlobal - avoids repeat lookups
